@@ -114,6 +114,7 @@ where
     match req.dist {
         DistKind::Standard => {
             for _ in 0..req.n {
+                rng.mark();
                 let c: C = rng.gen();
                 emit(&c);
             }
@@ -122,6 +123,7 @@ where
             let (lo, hi) = (mk(lo_t), mk(hi_t));
             let u = if inclusive { Uniform::new_inclusive(lo, hi) } else { Uniform::new(lo, hi) };
             for _ in 0..req.n {
+                rng.mark();
                 let c = u.sample(rng);
                 emit(&c);
             }
@@ -129,6 +131,7 @@ where
         DistKind::Single { inclusive } => {
             let (lo, hi) = (mk(lo_t), mk(hi_t));
             for _ in 0..req.n {
+                rng.mark();
                 let c = if inclusive {
                     <C::Sampler as UniformSampler>::sample_single_inclusive(lo.clone(), hi.clone(), rng)
                 } else {
